@@ -109,7 +109,10 @@ func cmdCheck(argv []string) int {
 			shortFor[kf.Obligation] = true
 		}
 	}
+	tExec := time.Since(start).Seconds()
 	reps := discharge(results, timeout, shortFor)
+	tSolve := time.Since(start).Seconds() - tExec
+	defer func() { fmt.Fprintf(os.Stderr, "timing: load+exec %.1fs, discharge %.1fs\n", tExec, tSolve) }()
 
 	violations := 0
 	var failed []*OblReport
